@@ -17,7 +17,7 @@ NOTES = {
  'C05': ('DESIGN.md 3/C05', 'struct shim; list transport; reply header fields / cut point / disconnect point symbolic; oracle = independent RFC 1928 reply-stream parser; exception escaping dataReceived is followed by connectionLost as in Twisted; error class per RFC 1928 code; late observers; up to 70000 coalesced application bytes'),
  'C06': ('DESIGN.md 3/C06', 'struct replaced by a validated pure-Python shim; symbolic hostnames start with g and use contract stubs for ipaddress/inet_pton; oracle = independent RFC 1928 request decoder; IPv6 CONNECT truncation is a listed known finding; public entry points (resolve, resolve_ptr, TorSocksEndpoint) with str and bytes targets'),
  'C07': ('DESIGN.md 3/C07', 'real TorState(bootstrap=False); histories = bounded symbolic event choices admitted by the Tor-side reference model (vlib/ref_tor.py), after the empty state and after 5 snapshots installed through _circuit_status/_stream_status (34-event alphabet incl. EXTENDED on a BUILT circuit, keyword sets that change between events); monitors after every event'),
- 'C08': ('DESIGN.md 3/C08', 'C07 objects plus recording listener doubles; listener add/remove positions, wait requests and the position of the close acknowledgement relative to the CLOSED event are symbolic choices; a listener attached from inside the *_new notification; close with and without Tor's flag'),
+ 'C08': ('DESIGN.md 3/C08', 'C07 objects plus recording listener doubles; listener add/remove positions, wait requests and the position of the close acknowledgement relative to the CLOSED event are symbolic choices; a listener attached from inside the *_new notification; close with and without the IfUnused flag'),
  'C09': ('DESIGN.md 3/C09', 'real TorState/attacher plumbing; harness acknowledges SETCONF/ATTACHSTREAM; attacher answer kind / delivery mode / stream kind symbolic; via-circuit: every causally possible order of 8 events for two concurrent TorCircuitEndpoint.connect calls and an unrelated stream, SOCKS leg faked; circuit closing / SOCKS leg failing with the local port re-used; PriorityAttacher; NEWRESOLVE streams'),
  'C10': ('DESIGN.md 3/C10', 'real TorConfig bootstrapped against SimTor; 4 (quick) / 5 (thorough) operations from assign / in-place list ops / accepted and rejected saves per option kind; SETCONF decoded by the reference kvline grammar and applied to the SimTor store; emptied-list clearing is a listed known finding; one option of each of 16 type names; announcements from another controller'),
  'C11': ('DESIGN.md 3/C11', 'real TorConfig bootstrapped against SimTor (vlib/simtor.py) through the real protocol; one option per declared type in states unset/one/two values with symbolic values; CONF_CHANGED (one or two options, resets) / local edit / list assignment / save sequences; an event at every point of the bootstrap'),
